@@ -1,7 +1,8 @@
 // `String` as an opaque ordered key: only equality and the total order are used by the code under contract
 // (BTreeSet<String>::contains, BTreeMap<String,_>::get). std's String order is a total order; which one is irrelevant here.
-#[derive(Clone, PartialEq, Eq, PartialOrd, Ord)]
+#[derive(PartialEq, Eq, PartialOrd, Ord)]
 pub struct String(pub u64);
+impl Clone for String { fn clone(&self) -> (r: String) ensures r == *self { String(self.0) } }
 impl vstd::std_specs::cmp::PartialEqSpecImpl for String {
     open spec fn obeys_eq_spec() -> bool { true }
     open spec fn eq_spec(&self, o: &String) -> bool { self.0 == o.0 }
